@@ -297,8 +297,10 @@ template <class T> class TM {
   // dog-leg path: real axis at latitude latvia (deg, > 0) -> up to lam -> horizontally to psi(lat).
   // With lat < 0 and dlon beyond the branch point this reaches the sheet "beyond the branch cut".
   Res forward_via(T lat, T dlon, T latvia) const { return forward_impl(lat, dlon, true, latvia, 0); }
-  // independent second evaluation: quadrature in the q plane (no Newton at the nodes)
-  Res forward_q(T lat, T dlon) const { return forward_impl(lat, dlon, false, 0, 1); }
+  // independent second evaluation: quadrature in the q plane (no Newton at the nodes).  Valid for |dlon| <= 90 only: the region
+  // {Re q > 0, 0 < Im q < pi/2} is convex and free of singularities, so the straight segment is homotopic to the image of the
+  // zeta path; on the far side it would pass on the wrong side of q = atanh(e) + i pi/2.
+  Res forward_q(T lat, T dlon) const { if (fabs(dlon) > 90) return Res(); return forward_impl(lat, dlon, false, 0, 1); }
 
   // ---- reverse: x, y in metres -> lat, dlon (degrees).  glat/gdlon: optional starting guess (degrees).
   bool reverse(T x, T y, T& lat, T& dlon, T& gamma, T& k, const T* glat = nullptr, const T* gdlon = nullptr) const {
